@@ -707,6 +707,10 @@ mod runners {
       for (module_reference, source) in utils::collect_sources(&configuration, heap) {
         let path =
           PathBuf::from(&configuration.source_directory).join(module_reference.to_filename(heap));
+        if !path.is_file() {
+          // The bundled std modules are part of the sources but not files of the project.
+          continue;
+        }
         let mut heap = samlang_heap::Heap::new();
         let mut error_set = samlang_errors::ErrorSet::new();
         let module = samlang_parser::parse_source_module_from_text(
